@@ -28,6 +28,12 @@ func runConnectAndInit(sp *caseSpec, res *caseResult) {
 	defer s.srvCancel()
 	ver := primitive.ProtocolVersion4
 	var addr string
+	duringAuth := strings.HasSuffix(cause, "-after-AUTH_RESPONSE") || strings.HasSuffix(cause, "-during-auth")
+	gotAuthResponse := make(chan struct{})
+	var creds *client.AuthCredentials
+	if duringAuth {
+		creds = &client.AuthCredentials{Username: "u", Password: "p"}
+	}
 	peerClosed := make(chan bool, 1) // raw peer: true = the socket was seen closed (EOF / reset), false = still open at the limit
 	var srv *client.CqlServer
 	var lis net.Listener
@@ -62,6 +68,27 @@ func runConnectAndInit(sp *caseSpec, res *caseResult) {
 				case "error-response":
 					_ = p.write(frame.NewFrame(f.Header.Version, f.Header.StreamId, &message.Invalid{ErrorMessage: "verif: not now"}))
 				}
+				if duringAuth {
+					// AUTHENTICATE; the fault lands between the client's AUTH_RESPONSE and its answer
+					_ = p.write(frame.NewFrame(f.Header.Version, f.Header.StreamId, &message.Authenticate{Authenticator: "org.apache.cassandra.auth.PasswordAuthenticator"}))
+					if ar, err := p.read(stepLimit); err == nil {
+						if _, ok := ar.Body.Message.(*message.AuthResponse); ok {
+							close(gotAuthResponse)
+							switch cause {
+							case "peer-closes-after-AUTH_RESPONSE":
+								p.close()
+								peerClosed <- true
+								return
+							case "peer-resets-after-AUTH_RESPONSE":
+								p.reset()
+								peerClosed <- true
+								return
+							case "error-after-AUTH_RESPONSE":
+								_ = p.write(frame.NewFrame(ar.Header.Version, ar.Header.StreamId, &message.Invalid{ErrorMessage: "verif: not now"}))
+							}
+						}
+					}
+				}
 			}
 			// from now on the peer only watches the socket: it must be closed by the other side
 			buf := make([]byte, 256)
@@ -76,17 +103,42 @@ func runConnectAndInit(sp *caseSpec, res *caseResult) {
 			}
 		}()
 	}
-	cl := client.NewCqlClient(addr, nil)
+	cl := client.NewCqlClient(addr, creds)
 	cl.ReadTimeout = readTimeout
-	if cause == "no-answer" {
+	if cause == "no-answer" || cause == "silent-after-AUTH_RESPONSE" {
 		cl.ReadTimeout = shortTimeout
 	}
 	var conn *client.CqlClientConnection
-	w := watch("ConnectAndInit", func() error {
-		var e error
-		conn, e = cl.ConnectAndInit(s.cliCtx, ver, client.ManagedStreamId)
-		return e
-	})
+	var w *callWatch
+	if cause == "client.Close-during-auth" {
+		// Close needs the handle: Connect, then InitiateHandshake (what ConnectAndInit does), Close meanwhile
+		c0, err := cl.Connect(s.cliCtx)
+		if err != nil {
+			res.Inc = append(res.Inc, "set-up failed: "+trimAddr(err.Error()))
+			return
+		}
+		conn = c0
+		w = watch("InitiateHandshake", func() error { return c0.InitiateHandshake(ver, client.ManagedStreamId) })
+	} else {
+		w = watch("ConnectAndInit", func() error {
+			var e error
+			conn, e = cl.ConnectAndInit(s.cliCtx, ver, client.ManagedStreamId)
+			return e
+		})
+	}
+	if cause == "client.ctx-during-auth" || cause == "client.Close-during-auth" {
+		select {
+		case <-gotAuthResponse:
+			if cause == "client.ctx-during-auth" {
+				s.cliCancel()
+			} else {
+				c0 := conn
+				s.calls = append(s.calls, watch("client.Close", func() error { return c0.Close() }))
+			}
+		case <-time.After(stepLimit):
+			res.Inc = append(res.Inc, "fault point not reached: the peer did not get an AUTH_RESPONSE")
+		}
+	}
 	cleanup := func() {
 		s.cliCancel()
 		s.srvCancel()
@@ -373,6 +425,36 @@ func runSpecial(sp *caseSpec, res *caseResult) {
 		res.Sigs = append(res.Sigs, sp.signature())
 		res.count("special_cases", 1)
 		res.count("special_connections_accepted", int64(accepted))
+	case "dup-id/shim-inflight":
+		// the in-flight handler alone: a request pending on id 7, a second one with id 7 (refused), close
+		ctx, cancel := context.WithCancel(context.Background())
+		defer cancel()
+		v := client.VerifNewInFlight(ctx, 8, 4, readTimeout)
+		first, err := v.Enqueue(frame.NewFrame(primitive.ProtocolVersion4, 7, &message.Options{}))
+		if err != nil {
+			res.Inc = append(res.Inc, "set-up failed: "+trimAddr(err.Error()))
+			return
+		}
+		t1 := newTrack("first-on-id-7", false, first)
+		s.addReq(t1)
+		if second, err := v.Enqueue(frame.NewFrame(primitive.ProtocolVersion4, 7, &message.Options{})); err != nil {
+			res.count("duplicate_id_send_refused", 1)
+		} else {
+			res.count("duplicate_id_send_accepted", 1)
+			s.addReq(newTrack("second-on-id-7", false, second))
+		}
+		if p, val, st := guard("Close", func() { v.Close() }); p {
+			s.viol("handler-close/panic-"+panicSlug(val), map[string]interface{}{"panic": val, "stack": st})
+		} else {
+			waitUntil(settle, func() bool { return t1.poll() })
+			// nothing can complete a request any more once the handler is closed and its context cancelled
+			cancel()
+			waitUntil(settle, func() bool { return len(clientGoroutines()) == 0 })
+			s.judgeRequests("A", len(clientGoroutines()) == 0, nil)
+		}
+		res.Evals = 1
+		res.Sigs = append(res.Sigs, sp.signature())
+		res.count("special_cases", 1)
 	case "send-after-close":
 		// Send / Receive / ReceiveEvent / Close on connections that are closed already, from every side
 		sp2 := *sp
